@@ -62,8 +62,8 @@ type game struct {
 	onGameErrorUpdated func(*pokerface.GameState, error)
 }
 
-func NewGame(backend GameBackend, opts *pokerface.GameOptions) *game {
-	rg := syncsaga.NewReadyGroup(
+func newGameReadyGroup() *syncsaga.ReadyGroup {
+	return syncsaga.NewReadyGroup(
 		syncsaga.WithTimeout(17, func(rg *syncsaga.ReadyGroup) {
 			// Auto Ready By Default
 			states := rg.GetParticipantStates()
@@ -74,6 +74,19 @@ func NewGame(backend GameBackend, opts *pokerface.GameOptions) *game {
 			}
 		}),
 	)
+}
+
+// resetReadyGroup gives every request phase (ready / ante / blinds) its own ready group: answers
+// still queued in the previous group (e.g. duplicated ones) must neither be applied to nor
+// complete the new phase.
+func (g *game) resetReadyGroup() *syncsaga.ReadyGroup {
+	g.rg.Stop()
+	g.rg = newGameReadyGroup()
+	return g.rg
+}
+
+func NewGame(backend GameBackend, opts *pokerface.GameOptions) *game {
+	rg := newGameReadyGroup()
 	return &game{
 		backend:            backend,
 		opts:               opts,
@@ -388,8 +401,12 @@ func (g *game) handleGameState(gs *pokerface.GameState) {
 
 func (g *game) onReadyRequested(gs *pokerface.GameState) {
 	// Preparing ready group to wait for all player ready
-	g.rg.Stop()
+	g.resetReadyGroup()
 	g.rg.OnCompleted(func(rg *syncsaga.ReadyGroup) {
+		if rg != g.rg {
+			return
+		}
+
 		if _, err := g.ReadyForAll(); err != nil {
 			g.onGameErrorUpdated(gs, err)
 			return
@@ -422,8 +439,12 @@ func (g *game) onAnteRequested(gs *pokerface.GameState) {
 	}
 
 	// Preparing ready group to wait for ante paid from all player
-	g.rg.Stop()
+	g.resetReadyGroup()
 	g.rg.OnCompleted(func(rg *syncsaga.ReadyGroup) {
+		if rg != g.rg {
+			return
+		}
+
 		gameState, err := g.PayAnte()
 		if err != nil {
 			g.onGameErrorUpdated(gs, err)
@@ -456,8 +477,12 @@ func (g *game) onAnteRequested(gs *pokerface.GameState) {
 
 func (g *game) onBlindsRequested(gs *pokerface.GameState) {
 	// Preparing ready group to wait for blinds
-	g.rg.Stop()
+	g.resetReadyGroup()
 	g.rg.OnCompleted(func(rg *syncsaga.ReadyGroup) {
+		if rg != g.rg {
+			return
+		}
+
 		gameState, err := g.PayBlinds()
 		if err != nil {
 			g.onGameErrorUpdated(gs, err)
